@@ -17,7 +17,7 @@ vars == <<svars, tid, l, bad>>
 Traces == ndJsonDeserialize(IOEnv.TRACE_FILE)
 
 Init == /\ tid \in 1..Len(Traces)
-        /\ SInit(Traces[tid].device)
+        /\ SInit(Traces[tid].device, Traces[tid].dev)
         /\ l = 1 /\ bad = ""
 
 Ev == Traces[tid].events[l]
